@@ -209,6 +209,26 @@ class SymFrame:
     def copy(self, deep=True):
         return SymFrame(self)
 
+    def assign(self, **cols):
+        out = self.copy()
+        for k, v in cols.items():
+            out[k] = v(out) if callable(v) else v
+        return out
+
+    def head(self, n=5):
+        return self._sub(list(range(len(self)))[:n])
+
+    def tail(self, n=5):
+        return self._sub(list(range(len(self)))[-n:] if n else [])
+
+    def to_dict(self, orient="dict"):
+        if orient != "list":
+            raise Unsupported(f"DataFrame.to_dict(orient={orient!r})")
+        return {k: list(v.d) for k, v in self.cols.items()}
+
+    def items(self):
+        return [(k, self._col(v)) for k, v in self.cols.items()]
+
     @property
     def loc(self):
         return _Loc(self)
